@@ -458,7 +458,7 @@ def objs_id_at(objs, path):
 
 
 XML_OPS = ["delete", "emptytext", "badtext", "unknowntag", "toolong", "wronglist", "hugeliteral", "toplist", "topunknown", "pi",
-           "emptychildren", "retagchildren"]
+           "emptychildren", "retagchildren", "nonamespace", "topnonamespace"]
 AASNS = "https://admin-shell.io/aas/3/0"
 
 
@@ -475,7 +475,7 @@ def xml_surface(root, rng: random.Random):
     return etree.fromstring(etree.tostring(new)), how
 
 
-SWEEP_OPS = ["emptychildren", "retagchildren", "delete", "emptytext"]
+SWEEP_OPS = ["emptychildren", "retagchildren", "delete", "emptytext", "nonamespace"]
 
 
 def damage_xml(objs, rng: random.Random, sweep=None):
@@ -513,6 +513,10 @@ def damage_xml(objs, rng: random.Random, sweep=None):
             continue
         if op == "topunknown":
             target.tag = ns + "noSuchIdentifiable"; return root, damaged_id, op
+        if op == "nonamespace":
+            e.tag = etree.QName(e).localname; return root, damaged_id, op          # same name, but in no namespace at all
+        if op == "topnonamespace":
+            target.tag = etree.QName(target).localname; return root, damaged_id, op
         if op == "emptychildren":
             if len(e) > 0:
                 for ch in list(e):
@@ -565,7 +569,7 @@ def oracle(ctx: C.Ctx, cov: C.Coverage, n: Optional[int] = None, seed: Optional[
         objs_, _ = make_doc(seed, i, depth)
         if b"dataSpecificationIec61360" in _et.tostring(_xs.object_store_to_xml_element(_m.DictObjectStore(objs_))):
             chosen.append(i)
-        if len(chosen) >= (2 if ctx.tier == "quick" else 12):
+        if len(chosen) >= (1 if ctx.tier == "quick" else 12):
             break
     for i in chosen[:1 if ctx.tier == "quick" else 6]:
         _, doc_ = make_doc(seed, i, depth)
@@ -588,6 +592,7 @@ def oracle(ctx: C.Ctx, cov: C.Coverage, n: Optional[int] = None, seed: Optional[
     # not well-formed / non-AAS input: documented syntax error or empty result
     out += [f for f in garbage_checks(seed) if f.sig not in sigs]
     out += [f for f in foreign_forms_check() if f.sig not in sigs and f.sig not in {g.sig for g in out}]
+    out += [f for f in duplicate_id_check() if f.sig not in {g.sig for g in out}]
     return out
 
 
@@ -637,6 +642,60 @@ def foreign_forms_check() -> List[C.Failing]:
                 out.append(C.Failing(f"failsafe:{fmt}:undamaged-changed", f"{xs} literal {lit!r} read as {canon.native(v)}, denotes {token}",
                                      {"foreign_forms": fmt}))
                 break
+    return out
+
+
+def duplicate_id_check() -> List[C.Failing]:
+    """two identifiables with one identifier in a document ("duplicate identifier" damage), for every combination of the readers'
+    store parameters: failsafe keeps the FIRST (or what the store held, when told to ignore existing objects), returns the
+    undamaged third one, and never raises; strict raises a documented kind"""
+    import itertools
+    from basyx.aas import model
+    from basyx.aas.adapter.json import read_aas_json_file_into
+    from basyx.aas.adapter.xml import read_aas_xml_file_into
+    out: List[C.Failing] = []
+    ns = "https://admin-shell.io/aas/3/0"
+    jdoc = json.dumps({"submodels": [{"modelType": "Submodel", "id": "urn:d", "idShort": "first"},
+                                     {"modelType": "Submodel", "id": "urn:d", "idShort": "second"},
+                                     {"modelType": "Submodel", "id": "urn:other", "idShort": "third"}]})
+    xdoc = (f'<?xml version="1.0"?><aas:environment xmlns:aas="{ns}"><aas:submodels>'
+            + "".join(f"<aas:submodel><aas:idShort>{n}</aas:idShort><aas:id>{i}</aas:id></aas:submodel>"
+                      for n, i in (("first", "urn:d"), ("second", "urn:d"), ("third", "urn:other")))
+            + "</aas:submodels></aas:environment>").encode()
+    for fmt, rep, ign, fs, pre in itertools.product(("json", "xml"), (False, True), (False, True), (True, False), (False, True)):
+        if pre and not (rep or ign):
+            continue        # a collision with the receiving store and neither flag set: documented KeyError in every mode
+        st = model.DictObjectStore()
+        if pre:
+            st.add(model.Submodel("urn:d", id_short="pre"))
+        case = {"duplicate_id": [fmt, rep, ign, fs, pre]}
+        try:
+            if fmt == "json":
+                read_aas_json_file_into(st, io.StringIO(jdoc), replace_existing=rep, ignore_existing=ign, failsafe=fs)
+            else:
+                read_aas_xml_file_into(st, io.BytesIO(xdoc), replace_existing=rep, ignore_existing=ign, failsafe=fs)
+        except Exception as e:
+            if fs:
+                out.append(C.Failing(f"failsafe:{fmt}:raises:{root_cause(e)}", f"failsafe {fmt} reader raised {type(e).__name__} on a document "
+                                     f"with a duplicate identifier (replace_existing={rep}, ignore_existing={ign})", case))
+            elif not any(c.__name__ in DOCUMENTED for c in type(e).__mro__):
+                out.append(C.Failing(f"strict:{fmt}:undocumented:{type(e).__name__}", "duplicate identifier", case))
+            continue
+        if not fs and pre and ign and not rep:
+            pass            # both copies are ignored in favour of the object the store holds: nothing was read twice
+        elif not fs:
+            out.append(C.Failing(f"strict:{fmt}:differs-from-failsafe", f"strict {fmt} reader accepted a document with a duplicate identifier "
+                                 f"(replace_existing={rep}, ignore_existing={ign}, pre-populated={pre})", case))
+            continue
+        if not fs and not (pre and ign and not rep):
+            continue
+        want = "pre" if (pre and not rep and ign) else "first"
+        got = st.get("urn:d")
+        if got is None or got.id_short != want or st.get("urn:other") is None:
+            out.append(C.Failing(f"failsafe:{fmt}:undamaged-lost" if got is None or st.get("urn:other") is None else f"failsafe:{fmt}:undamaged-changed",
+                                 f"duplicate identifier (replace_existing={rep}, ignore_existing={ign}, pre-populated={pre}): the store holds "
+                                 f"{getattr(got, 'id_short', None)!r} under the id, the {'object it held before' if want == 'pre' else 'first (undamaged) one'} "
+                                 f"should be there", case))
     return out
 
 
@@ -692,6 +751,9 @@ def search(ctx: C.Ctx, disagreements, broken) -> List[C.Failing]:
 
 
 def replay(case) -> Optional[C.Failing]:
+    if isinstance(case, dict) and "duplicate_id" in case:
+        fs_ = [f for f in duplicate_id_check() if f.case.get("duplicate_id") == case["duplicate_id"]]
+        return fs_[0] if fs_ else None
     if isinstance(case, dict) and "foreign_forms" in case:
         fs = [f for f in foreign_forms_check() if f.case.get("foreign_forms") == case["foreign_forms"]]
         return fs[0] if fs else None
